@@ -217,6 +217,89 @@ def access(ctx):
                         bad.append(f'{k} with {v} error response(s) ({" ".join(w)})')
             R.check(not bad, rule, f'{SRV}.{name} | refusal always answered with the error #{hi + 1}', 'every path of the refusal handler produces exactly one Error Response (and, inside a per-attribute loop, leaves the handler)',
                     'a refusal by the permission gate can be turned into a success response carrying what was collected so far (or into no response): the client is not told that an attribute of its request was refused', p.loc(h), bad[:2])
+    # list requests: a refusal of the *first* matching attribute is what the client is told (no list, no "not found")
+    from collections import namedtuple
+    FV = namedtuple('FV', 'attrs resp refused sent')
+
+    def _kind(call):
+        if call_attr(call) == 'ATT_Error_Response':
+            ec = kwarg(call, 'error_code')
+            return 'gate-error' if ec is not None and norm(ec).endswith('.error_code') else 'other-error'
+        return 'success' if (call_attr(call) or '').endswith('_Response') else None
+
+    class First(paths.Domain):
+        def may_raise(self, call):
+            return 'ATT_Error' if call_attr(call) == 'read_value' else False
+
+        def is_subclass(self, tag, name):
+            return tag == name or name in ('Exception', 'BaseException')
+
+        def event(self, node, v):
+            if isinstance(node, ast.Assign) and len(node.targets) == 1:
+                tg = dotted(node.targets[0])
+                if tg == 'attributes':
+                    return (v._replace(attrs='empty' if isinstance(node.value, (ast.List, ast.Tuple)) and not node.value.elts else 'unknown'),)
+                if tg == 'response' and isinstance(node.value, ast.Call) and _kind(node.value):
+                    return (v._replace(resp=_kind(node.value)),)
+            if isinstance(node, ast.Call):
+                if dotted(node.func) == 'attributes.append':
+                    return (v._replace(attrs='nonempty'),)
+                if dotted(node.func) == 'self.send_response' and len(node.args) == 2:
+                    a = node.args[1]
+                    k = _kind(a) if isinstance(a, ast.Call) else (v.resp if dotted(a) == 'response' else 'unknown')
+                    return (v._replace(sent=v.sent + (k,)),)
+            return (v,)
+
+        def assume(self, atom, truth, v):
+            if norm(atom) == 'attributes':
+                if v.attrs == 'empty':
+                    return () if truth else (v,)
+                if v.attrs == 'nonempty':
+                    return (v,) if truth else ()
+            return (v,)
+
+        def enter_handler(self, handler, v):
+            if handler.type is not None and 'ATT_Error' in text(handler.type):
+                return (v._replace(refused=v.refused or v.attrs == 'empty'),)
+            return (v,)
+    for name in ('on_att_read_by_type_request', 'on_att_read_by_group_type_request'):
+        m = srv.methods.get(name)
+        if m is None:
+            continue
+        res = paths.run(m, First(), FV('unknown', 'none', False, ()))
+        outs = {(k, v) for k, st in res.items() if not k.startswith('raise') for v in st}
+        bad = sorted(f'{k}: sent {list(v.sent)}' for k, v in outs if v.refused and v.sent != ('gate-error',))
+        R.check(any(v.refused for k, v in outs) and not bad, rule, f'{SRV}.{name} | first refusal reaches the client', 'when the gate refuses the first matching attribute, exactly one response is sent and it is the Error Response carrying the gate\'s error',
+                'the refusal of the first matching attribute is not what the client receives (overwritten by "attribute not found" or by a list): the client is told there is nothing there instead of being told to raise its security', p.loc(m), bad[:3])
+    # value provenance: whatever a reading handler puts into a success response is computed, in this very invocation, from
+    # the request, the bearer and what the gate returned; no other server-side state (a cache shared between links, a
+    # snapshot taken for another bearer) may feed a response value
+    ALLOWED_STATE = {'attributes', 'get_attribute', 'attributes_by_handle'}
+    for name in sorted(READERS & set(srv.methods)):
+        m = srv.methods[name]
+        sinks = [c for c in ast.walk(m) if isinstance(c, ast.Call) and (call_attr(c) or '').endswith('_Response') and call_attr(c) != 'ATT_Error_Response']
+        work = [k.value for c in sinks for k in c.keywords] + [a for c in sinks for a in c.args]
+        seen, state = set(), {}
+        while work:
+            e = work.pop()
+            for x in ast.walk(e):
+                if isinstance(x, ast.Attribute) and isinstance(x.value, ast.Name) and x.value.id == 'self' and x.attr not in ALLOWED_STATE:
+                    state.setdefault(x.attr, x)
+                if isinstance(x, ast.Name) and x.id not in seen:
+                    seen.add(x.id)
+                    for n in ast.walk(m):
+                        if isinstance(n, ast.Assign) and any(isinstance(y, ast.Name) and y.id == x.id for t_ in n.targets for y in ast.walk(t_)):
+                            work.append(n.value)
+                        elif isinstance(n, ast.AugAssign) and isinstance(n.target, ast.Name) and n.target.id == x.id:
+                            work.append(n.value)
+                        elif isinstance(n, ast.NamedExpr) and n.target.id == x.id:
+                            work.append(n.value)
+                        elif isinstance(n, (ast.For, ast.AsyncFor, ast.comprehension)) and any(isinstance(y, ast.Name) and y.id == x.id for y in ast.walk(n.target)):
+                            work.append(n.iter)
+                        elif isinstance(n, ast.Call) and isinstance(n.func, ast.Attribute) and n.func.attr in ('append', 'extend', 'insert', 'update', 'setdefault') and isinstance(n.func.value, ast.Name) and n.func.value.id == x.id:
+                            work.extend(n.args)
+        R.check(bool(sinks) and not state, rule, f'{SRV}.{name} | value provenance', f'{len(sinks)} success response(s) built only from the request, the bearer and the gate\'s result ({len(seen)} locals in the slice)',
+                f'a response value is computed from server state `self.{sorted(state)[0] if state else ""}` besides the permission gate: data obtained for one link (or at another time) can be served on a link that the gate would refuse', p.loc(next(iter(state.values()))) if state else p.loc(m))
     missing = (READERS | WRITERS) - set(srv.methods)
     for mname in sorted(missing):
         R.bad(rule, f'{SRV}.{mname}', f'anchor missing: {SRV}.{mname}')
